@@ -59,3 +59,19 @@ Qed.
 (* C03 on the translated step: never FIRST, MID with discount 1 or LAST with discount 0 (no truncation) -- any state, any action *)
 Lemma src_step_protocol rnd sparse s a : step_ok 1 false (snd (step rnd (reward_src sparse) s a)) = true.
 Proof. destruct (step_src rnd sparse s a) as [_ E]. rewrite E. apply C03_step_protocol. Qed.
+(* C05: an item that is packed already or does not fit ends the episode with zero reward and leaves the state untouched *)
+Lemma src_illegal_item n rnd sparse s a : M.shape n (conv s) -> 0 <= a < n -> ~ M.legal (conv s) a ->
+  conv (fst (step rnd (reward_src sparse) s a)) = conv s /\ snd (step rnd (reward_src sparse) s a) = termination 1 [0].
+Proof.
+  intros Sh Ha Hl. destruct (step_src rnd sparse s a) as [E1 E2]. rewrite E1, E2.
+  rewrite (C05_illegal_item n rnd sparse (conv s) a Sh Ha Hl). split; reflexivity.
+Qed.
+(* C12: the translated observation is the state's weights, values and packed flags plus the mask "legal item" *)
+Lemma src_observation n s : M.shape n (conv s) ->
+  let o := state_to_observation s in
+  (o_weights o, o_values o, o_packed_items o, o_action_mask o)
+  = (s_weights s, s_values s, s_packed_items s, map (M.legal_b (conv s)) (zrange n)).
+Proof.
+  intros Sh. cbv zeta. pose proof (C12_observation n (conv s) Sh) as H. unfold M.observe in H.
+  rewrite mask_src. injection H as H. rewrite H. reflexivity.
+Qed.
